@@ -56,7 +56,8 @@ func FindLayerUsers(prefix string) (InUseLayerMap, error) {
 		proc := "/proc/" + pidString + "/"
 		progName, err := Readlink(proc + "exe")
 		if err != nil {
-			if err == syscall.EACCES {
+			if err == syscall.EACCES || err == syscall.ESRCH {
+				// inaccessible, or gone since /proc was listed
 				continue
 			}
 			if err != syscall.ENOENT {
